@@ -1505,14 +1505,33 @@ def c09_bound(ctx):
                        and not (d + "()") in deps)
         ctx.check(not state, c, "the pre_dispatch amount is computed from this call's n_jobs and the user's setting only",
                   "the pre_dispatch amount depends on %s, instance state that survives from one call to the next: after n_jobs changed, the look-ahead of an earlier call is used" % state)
-    # a fractional amount ('1.5*n_jobs') is truncated, never rounded up: the look-ahead may not exceed the bound
-    for a in nodes_of_type(call, ast.Assign):
-        if "self._pre_dispatch_amount" in stores_to(a) and not (isinstance(a.value, ast.Constant) and isinstance(a.value.value, int)):
-            v = a.value
-            if isinstance(v, ast.Call) and call_name(v) == "max" and len(v.args) == 2 and any(isinstance(x, ast.Constant) for x in v.args):
-                v = [x for x in v.args if not isinstance(x, ast.Constant)][0]
-            ctx.check(isinstance(v, ast.Call) and call_name(v) in ("int", "math.floor") and len(v.args) == 1, a, "the pre_dispatch amount is truncated with %s()" % (call_name(v) if isinstance(v, ast.Call) else "?"),
-                      "the pre_dispatch amount is computed as %s: fractional forms such as '1.5*n_jobs' can be rounded UP, one item more than the bound is consumed ahead" % unparse(v))
+    # a fractional amount ('1.5*n_jobs') is truncated, never rounded up: the look-ahead may not exceed the bound.
+    # Decided as a flag dataflow: on every path to the slice its bound is an integer obtained by truncation.
+    from ..flow import flag_states, flag_at
+
+    def truncated(v, has):
+        if isinstance(v, ast.Constant) and isinstance(v.value, int):
+            return True
+        if isinstance(v, ast.Call) and call_name(v) in ("int", "math.floor") and len(v.args) == 1 and not v.keywords:
+            return True
+        if isinstance(v, ast.Call) and call_name(v) in ("max", "min") and v.args and not v.keywords:
+            return all(truncated(x, has) for x in v.args)
+        if isinstance(v, ast.BoolOp) or isinstance(v, ast.IfExp):
+            parts = v.values if isinstance(v, ast.BoolOp) else [v.body, v.orelse]
+            return all(truncated(x, has) for x in parts)
+        d = dotted(v)
+        return bool(d) and has(d)
+
+    gcall = cfg_of(call)
+    states = flag_states(gcall, truncated, lambda atom, pol: [])
+    for c in sl2:
+        b = c.args[1]
+        d = dotted(b)
+        ok = truncated(b, lambda n: False) or (d is not None and flag_at(gcall, states, c, d))
+        origin = [a for a in nodes_of_type(call, ast.Assign) if d in stores_to(a)] if d else []
+        ctx.check(ok, c, "on every path to the look-ahead slice its bound `%s` was truncated with int()/floor (flag dataflow)" % unparse(b, 40),
+                  "the pre_dispatch amount is computed as %s: fractional forms such as '1.5*n_jobs' can be rounded UP, one item more than the bound is consumed ahead"
+                  % (", ".join(sorted({unparse(a.value, 50) for a in origin})) or unparse(b, 50)))
 
 
 def c01_predispatch_positive(ctx):
@@ -1533,40 +1552,47 @@ def c01_predispatch_positive(ctx):
             return True
         return False
 
+    from ..flow import flag_states, flag_at
+
+    def value_has(v, has):
+        if lower_ok(v):
+            return True
+        if isinstance(v, ast.BoolOp) and isinstance(v.op, ast.Or):
+            return value_has(v.values[-1], has)
+        if isinstance(v, ast.IfExp):
+            return value_has(v.body, has) and value_has(v.orelse, has)
+        d = dotted(v)
+        return bool(d) and has(d)
+
+    def refine(atom, pol):
+        # names that cannot be 0 when `atom` evaluates to `pol`
+        while isinstance(atom, ast.UnaryOp) and isinstance(atom.op, ast.Not):
+            atom, pol = atom.operand, not pol
+        d = dotted(atom)
+        if d:
+            return [d] if pol else []
+        if isinstance(atom, ast.Compare) and len(atom.ops) == 1:
+            l, r, op = atom.left, atom.comparators[0], type(atom.ops[0])
+            cl, cr = const_value(l), const_value(r)
+            if dotted(r) and cl is not None and dotted(l) is None:
+                flip = {ast.Lt: ast.Gt, ast.Gt: ast.Lt, ast.LtE: ast.GtE, ast.GtE: ast.LtE}
+                l, r, op, cl, cr = r, l, flip.get(op, op), None, cl
+            name = dotted(l)
+            if not name or not isinstance(cr, int) or isinstance(cr, bool):
+                return []
+            # truth table of `name <op> cr` on the value 0: the branch on which 0 is excluded
+            zero_truth = {ast.Eq: 0 == cr, ast.NotEq: 0 != cr, ast.Lt: 0 < cr, ast.LtE: 0 <= cr, ast.Gt: 0 > cr, ast.GtE: 0 >= cr}.get(op)
+            if zero_truth is None:
+                return []
+            return [name] if pol != zero_truth else []
+        return []
+
+    states = flag_states(g, value_has, refine)
     for c in sl:
-        amount = dotted(c.args[1])
-        names = {amount, "pre_dispatch", "self._pre_dispatch_amount"} - {None}
-        stores = [a for a in nodes_of_type(call, ast.Assign) if (set(stores_to(a)) & names) and g_in_else(call, a)]
-        if stores and all(lower_ok(a.value) for a in stores if not (isinstance(a.value, ast.Name) and a.value.id in names)):
-            ctx.ok(c, "every definition of the pre_dispatch amount is >= 1")
-            continue
-        guards = []
-        for n in nodes_of_type(call, ast.If):
-            t = n.test
-            zero = False
-            if isinstance(t, ast.Compare) and len(t.ops) == 1 and (set(attrs_in(t)) & names):
-                l, r, op = t.left, t.comparators[0], t.ops[0]
-                cl, cr = const_value(l), const_value(r)
-                zero = (isinstance(op, ast.Eq) and 0 in (cl, cr)) or (isinstance(op, ast.Lt) and cr == 1 and cl is None) or (isinstance(op, ast.LtE) and cr == 0 and cl is None) \
-                    or (isinstance(op, ast.Lt) and cl == 0 and False)
-            elif isinstance(t, ast.UnaryOp) and isinstance(t.op, ast.Not) and dotted(t.operand) in names:
-                zero = True
-            if not zero:
-                continue
-            # the clamp must reach the very expression handed to islice: it stores to it, or the (later) definition of that
-            # expression copies the clamped name
-            clamps = [x for x in n.body if isinstance(x, ast.Assign) and (set(stores_to(x)) & names) and lower_ok(x.value)]
-            def reaches_amount(x):
-                if amount in stores_to(x):
-                    return True
-                clamped = set(stores_to(x)) & names
-                later = [a for a in nodes_of_type(call, ast.Assign) if amount in stores_to(a) and dotted(a.value) in clamped and g.path_exists(g.nodes_of(x), g.nodes_of(a))
-                         and g.every_path_to(g.nodes_of(c), g.nodes_of(a))]
-                return bool(later)
-            body_ok = any(isinstance(x, ast.Raise) for x in n.body) or any(reaches_amount(x) for x in clamps)
-            if body_ok and g.every_path_to(g.nodes_of(c), g.nodes_of(n)) and all(not g.path_exists(g.nodes_of(n), g.nodes_of(a)) for a in stores if a not in n.body and not any(a is y for x in n.body for y in ast.walk(x))):
-                guards.append(n)
-        ctx.check(bool(guards), c, "an amount of 0 is replaced (or rejected) before the look-ahead slice is taken",
+        b = c.args[1]
+        amount = dotted(b)
+        ok = lower_ok(b) or (amount is not None and flag_at(g, states, c, amount))
+        ctx.check(ok, c, "on every path to the look-ahead slice its bound `%s` is a value that is not 0 (flag dataflow over %d CFG nodes)" % (unparse(b, 40), len(g.nodes)),
                   "the pre_dispatch amount can be 0 (pre_dispatch=0, or an expression such as 'n_jobs // 4' with few workers): nothing is dispatched by the caller, no completion ever "
                   "dispatches the rest, and the call returns [] for a non-empty input", key=PAR + "::Parallel.__call__::pre_dispatch amount >= 1")
 
